@@ -27,6 +27,9 @@ UpdEv == /\ More /\ Ev.op = "update"
          /\ ChkB("threshold inside its bracket", ThetaOK(Ev.th), Ev.th)
          /\ Update(Ev.data, Ev.part, Ev.th) /\ Counters /\ Adv
 RstEv == /\ More /\ Ev.op = "reset" /\ UserReset /\ Counters /\ Adv
-Next == BuildEv \/ RefEv \/ UpdEv \/ RstEv
+(* a malformed set_reference / update: refused, nothing moves (counters, state and the retained reference are as before) - except that an update
+   refused right after a drift may already have performed the pending automatic reset (as in every other module: PendingReset) *)
+RefusedEv == /\ More /\ Ev.op = "refused" /\ (UNCHANGED nnvars \/ (st = "drift" /\ UserReset)) /\ Counters /\ Adv
+Next == BuildEv \/ RefEv \/ UpdEv \/ RstEv \/ RefusedEv
 Spec == Init /\ [][Next]_tvars
 =============================================================================
